@@ -320,15 +320,21 @@ class Unit:
         rec.src_line = line_of(s.text, a)
         rec.orig = s.text[a:b]
         subs = []
+        attrs = []
         for ln in block:
             d = re.match(r'\s*//@\s*(sub\??)\s+(\S+)\s+(.*)$', ln)
             if d:
                 rx, repl = parse_bt(d.group(3))
                 subs.append((d.group(2), rx, repl, d.group(1) == 'sub?'))
+            d = re.match(r'\s*//@\s*attr\s+(.*)$', ln)
+            if d:
+                attrs.append(d.group(1))
         text = self.apply_rules(rec.orig, rec, subs)
         rec.final = text
         self.finish_rec(rec)
         self.emit('// ---- extracted %s from %s:%d" ----' % (rec.name, rel, rec.src_line))
+        for a in attrs:
+            self.emit(a)
         self.emit(text, fn=rec.name)
 
     def finish_rec(self, rec):
